@@ -166,8 +166,8 @@ theorem baseOfDds_normBase (name : Dds.Text) (dims : List Dds.Text) (ty : Ty) (s
     (hd : dims = [] ∨ dims.length = shape.length) :
     baseOfDds (Dds.normBase (ddsBase name dims ty shape) 0) = some (.base ty shape) := by
   have hshape : (Dds.normBase (ddsBase name dims ty shape) 0).shape = shape.map Int.ofNat := by
-    unfold Dds.normBase ddsBase
-    simp only [List.drop_zero]
+    unfold Dds.normBase ddsBase Dds.effShape
+    simp only [List.drop_zero, Bool.false_eq_true, if_false]
     by_cases h1 : dims ≠ []
     · have hl : dims.length = shape.length := by
         rcases hd with h | h
@@ -181,8 +181,8 @@ theorem baseOfDds_normBase (name : Dds.Text) (dims : List Dds.Text) (ty : Ty) (s
       · rw [if_neg h2]
   have hdt : (Dds.normBase (ddsBase name dims ty shape) 0).dt = (parserStr ty).toList := by
     have : (Dds.normBase (ddsBase name dims ty shape) 0).dt = Dds.normTy (npChar ty) := by
-      unfold Dds.normBase ddsBase
-      simp only [List.drop_zero]
+      unfold Dds.normBase ddsBase Dds.effShape
+      simp only [List.drop_zero, Bool.false_eq_true, if_false]
       split
       · rfl
       · split <;> rfl
